@@ -57,6 +57,15 @@ CLAIMS.update({
     "C14": ("e3-lifecycle", "model_checking",
             "retry arithmetic of Client.tla (retryCur doubling capped at max, reset on Connected, min after disconnect, wake = now + announced delay) validated on recorded runs over a (min,max) grid and failure/success/disconnect patterns with waits of delay-1 then 1 ms under virtual time: the announced delay and the instant of the next attempt must be exactly the specification's",
             "§7 C14", TRUST + "virtual milliseconds"),
+    "C09": ("e4-servertask", "model_checking",
+            "TlsAdmission.tla is the admission reference (minimum version, certificate validity per mode, single role extension); TlsAdmission_MC checks it against the statements of C09 over the whole configuration x peer grid; real handshakes on loopback between rodbus TLS servers (Rust and C ABI constructors, authority and self-signed modes, min 1.2 / 1.3, with and without authorization) and an independently configured rustls peer with pinned versions and fixture certificates are validated by TLC: outcome, negotiated version and the role seen by the authorization handler",
+            "§7 C09", TRUST + "rustls/webpki/ring internals; fixture certificate facts tabulated in TlsAdmission!CertInfo; server role (client role: see DESIGN.md)"),
+    "C15": ("e4-servertask", "model_checking",
+            "ServerTaskTrace.tla models the tracker (ids in age order), per-connection fate and the shared database; random histories of connects / requests / closes / malformed headers / half frames / decode changes / shutdown / handle drop with max_sessions 0..3 on loopback TCP, and TLS servers with sessions stalled in the handshake, are validated by TLC using the tracker hook events (size <= max, evicted = oldest at every step) and the peers' view (reply computed by the reference server, EOF, refused); a session may leave the tracker only for a cause on its own connection (isolation)",
+            "§7 C15", TRUST + "eviction / close timing is observed through hook events and bounded waits (no deterministic scheduler under tokio)"),
+    "C16": ("e4-servertask", "model_checking",
+            "AddressFilter.tla (Matches, WildcardClass) evaluated by TLC judges the hook-reported filter decision and the peer's view for filters {any, exact, set, wildcard lattice} x aliased loopback sources (IPv4 and ::1) x {TCP, TLS, TLS+authz} x {Rust API, C ABI}, and 3 000+ wildcard strings through WildcardIPv4::from_str and rodbus_address_filter_create",
+            "§7 C16", TRUST + "loopback aliases stand for remote addresses"),
 })
 
 ENGINES = [
@@ -66,6 +75,8 @@ ENGINES = [
      "kind_free_text": "production client request loop (ClientLoop::run via verif::ClientSession) under virtual time; ndjson trace validated by TLC against the Client.tla state machine"},
     {"name": "e3-lifecycle", "path": "harness/src/bin/e2_client.rs (mode task) + spec/Client.tla + spec/ClientTrace.tla",
      "kind_free_text": "production TcpChannelTask (enable / connect / retry / listener / request loop) with a harness connector under virtual time; validated by TLC against the life-cycle part of Client.tla"},
+    {"name": "e4-servertask", "path": "harness/src/bin/e4_server.rs + spec/ServerTaskTrace.tla + AddressFilter.tla + TlsAdmission.tla",
+     "kind_free_text": "TCP / TLS servers created through the public Rust and C ABI constructors, driven black-box over loopback sockets (real time) plus guarded hook events of the server task; validated by TLC"},
 ]
 
 
